@@ -72,6 +72,23 @@ def _iv_anti(f):
     return lambda lo, hi: (f(hi), f(lo))
 
 
+def _iv_sin(lo, hi):
+    """range of sin over [lo, hi] (tight, so that asin(sin(u)) passes the domain guard on narrow intervals)"""
+    if not (math.isfinite(lo) and math.isfinite(hi)) or hi - lo >= 2 * math.pi:
+        return (-1.0, 1.0)
+    vals = [math.sin(lo), math.sin(hi)]
+    k = math.ceil((lo - math.pi / 2) / math.pi)
+    while math.pi / 2 + k * math.pi <= hi:
+        vals.append(1.0 if k % 2 == 0 else -1.0)
+        k += 1
+    # (outward rounding: the end points are computed with round-off)
+    return (max(-1.0, min(vals) - 1e-12), min(1.0, max(vals) + 1e-12))
+
+
+def _iv_cos(lo, hi):
+    return _iv_sin(lo + math.pi / 2, hi + math.pi / 2)
+
+
 def _iv_cosh(lo, hi):
     m1 = max(abs(lo), abs(hi))
     m0 = 0.0 if lo <= 0 <= hi else min(abs(lo), abs(hi))
@@ -100,8 +117,8 @@ DOMAINS = {
 # name: (domain, f, df, interval, flags)   flags: s = smooth and differentiable by sympy,
 #       j = jump, u = unknown to sympy (no symbolic derivative), n = numpy route only
 FUNC1 = {
-    "sin": ("any", np.sin, np.cos, lambda lo, hi: (-1.0, 1.0), "s"),
-    "cos": ("any", np.cos, lambda u: -np.sin(u), lambda lo, hi: (-1.0, 1.0), "s"),
+    "sin": ("any", np.sin, np.cos, _iv_sin, "s"),
+    "cos": ("any", np.cos, lambda u: -np.sin(u), _iv_cos, "s"),
     "tan": ("tan", np.tan, lambda u: 1 / np.cos(u) ** 2, _iv_mono(math.tan), "s"),
     "asin": ("unit", np.arcsin, lambda u: 1 / np.sqrt(1 - u * u), _iv_mono(math.asin), "s"),
     "acos": ("unit", np.arccos, lambda u: -1 / np.sqrt(1 - u * u), _iv_anti(math.acos), "s"),
@@ -302,6 +319,9 @@ PROFILE_ARRAY = {"jump": False, "abs": False, "undef": True, "ufunc": False, "er
 PROFILE_PDE = {"jump": False, "abs": False, "undef": False, "ufunc": False, "erf": False,
                "rpow": False, "funcs": ["sin", "cos", "tanh", "exp", "sqrt", "log", "atan"]}
 
+#: inverse: (forward, centre of the argument window off the principal branch, half width of the window)
+OFF_BRANCH = {"asin": ("sin", math.pi, 1.0), "acos": ("cos", 1.5 * math.pi, 1.0), "acosh": ("cosh", -2.2, 1.4)}
+
 NUMS = [1.0, 2.0, 3.0, 0.5, 0.25, 1.5, 2.5, 0.1, 0.3, 10.0, 4.0, 0.75, 7.0]
 #: 'nice' argument values (exact hits of jumps such as heaviside(x - 0.5))
 NICE = [0.5, 1.0, -0.5, 0.0, -1.0, 2.0, -2.0, 0.25, 1.5, 3.0, -3.0]
@@ -396,6 +416,33 @@ class Builder:
         if c == 0:
             return v
         return ["sub", v, ["num", c]] if c > 0 else ["add", v, ["num", -c]]
+
+    def off_branch(self, inv):
+        """``inv(fwd(s*x + c))`` with the argument OUTSIDE the principal branch of ``inv`` (after missed
+        seed C11-5: a simplification that cancels inverse(forward(x)) is only wrong there), e.g.
+        asin(sin(x + 2.64)) with x + 2.64 around pi, acosh(cosh(x - 2)) with a negative argument"""
+        fwd, centre, half = OFF_BRANCH[inv]
+        cands = [l for l in self.leaves if l[0] == "var"]
+        if not cands:
+            return None
+        x = self.pick(cands)
+        lo, hi = self.ranges[x[1]]
+        scale = 1.0
+        while (hi - lo) * scale > 2 * half:
+            scale /= 2  # (powers of two: exact)
+        c = round(centre - 0.5 * (lo + hi) * scale, 2)
+        inner = x if scale == 1.0 else ["mul", ["num", scale], x]
+        if c > 0:
+            inner = ["add", inner, ["num", c]]
+        elif c < 0:
+            inner = ["sub", inner, ["num", -c]]
+        res = ["call", inv, ["call", fwd, inner]]
+        try:
+            self.iv(res)
+        except DomainBug:
+            return None
+        self.budget -= 2
+        return res
 
     def guard(self, u, lo_req, hi_req, templates):
         """Return ``u`` if its interval lies in [lo_req, hi_req], else a wrapped version."""
@@ -572,6 +619,11 @@ class Builder:
                 b = self.guard(self.node(depth - 1), -3.0, 3.0, self._t_sym(3.0))
             res = ["rpow", a, b]
         elif k == "f1":
+            invs = [n for n in OFF_BRANCH if n in self.f1 and OFF_BRANCH[n][0] in self.f1]
+            if invs and self.p.get("off_branch", True) and self.chance(1, 5):
+                res = self.off_branch(self.pick(invs))
+                if res is not None:
+                    return res
             name = self.pick(self.f1)
             arg = self.node(depth - 1)
             if name in EXPANDING and expanded_terms(arg) > 3:
